@@ -68,3 +68,14 @@ func MapKeys[K ordered, V any](m map[K]V, site string) []K {
 	}
 	return keys
 }
+
+// GoHook, if non-nil, is called at the start of every goroutine spawned by instrumented orda code
+// (the schedule explorer parks the new goroutine there).
+var GoHook func(site string)
+
+// GoStart is inserted by tools/instr as the first action of spawned goroutines.
+func GoStart(site string) {
+	if h := GoHook; h != nil {
+		h(site)
+	}
+}
